@@ -325,7 +325,7 @@ func (st *c12State) caseConfig(i int64) {
 	// half of the cases hand the bundled memory type to the CPU directly (no
 	// monitor in between), as a user would: type-specific fast paths are then
 	// reachable; the bus-access watchdog is not available there
-	direct := i%2 == 0
+	direct := i%2 == 0 && memKind >= 3 // only the bundled types; the harness's own array stays monitored
 	ioLen := c12IOLens[r.Intn(len(c12IOLens))]
 	var io z80.IO
 	iclass := "nilIO"
